@@ -130,12 +130,13 @@ def hook_missing(build_log):
 # running
 # --------------------------------------------------------------------------------------------
 class Case:
-    __slots__ = ("idx", "seed", "script", "ops", "answers", "monitors", "cover", "cells", "stats", "ended", "skipped")
+    __slots__ = ("idx", "seed", "script", "ops", "answers", "monitors", "cover", "cells", "cfcells", "stats", "ended", "skipped")
 
     def __init__(self, idx, seed):
         self.idx, self.seed = idx, seed
         self.script, self.ops, self.answers, self.monitors, self.cover, self.skipped = [], [], [], [], [], []
         self.cells = []
+        self.cfcells = []
         self.stats = {}
         self.ended = False
 
@@ -165,6 +166,8 @@ def parse_output(text):
             cur.cover.append(rest)
         elif tag == "K":
             cur.cells.append(rest)
+        elif tag == "J":
+            cur.cfcells.append(rest)
         elif tag == "S":
             cur.skipped.append(rest)
         elif tag == "E":
@@ -329,6 +332,7 @@ class Agg:
         self.n_diff = 0
         self.cover = collections.Counter()
         self.cells = collections.Counter()
+        self.cfcells = collections.Counter()
         self.distinct = set()
         self.stash = self.reuse = self.coll = 0
         self.groups = collections.OrderedDict()
@@ -340,6 +344,7 @@ class Agg:
             self.n_ops += len(c.ops)
             self.cover.update(c.cover)
             self.cells.update(c.cells)
+            self.cfcells.update(c.cfcells)
             self.stash += c.stats.get("stash", 0)
             self.reuse += c.stats.get("reuse", 0)
             self.coll += c.stats.get("coll", 0)
@@ -417,7 +422,8 @@ def analyse(prop, tier, seed, hexe, mexe, agg, crashes, timings, do_shrink=True)
                   "stashnew s<N> <payload id> h<N> | stashvia s<N> h<src> h<new> | clone h<N> h<new> | drop h<N> | fetch|tryfetch|contains s<N> h<N> | "
                   "dump s<N> | collect a<N> debt <x>|mark <x>|finmark|cycle <x>|fincycle|step <x> | alloc a<N> <n> <keep> | clearjunk a<N> | droparena a<N> | "
                   "weaknew a<N> <payload id> (object reachable only through a GcWeak in the root) | stashweak s<N> <payload id> h<N> (upgrade that "
-                  "weak pointer and stash the result) | weakdrop a<N> <payload id> | park s<N> | unpark s<N> | end arenas-first|handles-first",
+                  "weak pointer and stash the result) | weakdrop a<N> <payload id> | park s<N> | unpark s<N> | "
+                  "clonefrom h<dst> h<src> (dst.clone_from(&src); for the model: drop dst, then clone src as dst) | end arenas-first|handles-first",
                   f"replay: {hexe} replay <this file>     (M lines = monitors; O/A lines = model op / implementation answer)",
                   f"   or : python3 {os.path.join(ROOT, 'lib', 'eng_dynroots.py')} replay {prop} <this file>"]
         problems.append(dict(name=re.sub(r"[^A-Za-z0-9]+", "-", f"dynroots-{sig}-{k}").strip("-"), text=text,
@@ -441,6 +447,13 @@ def analyse(prop, tier, seed, hexe, mexe, agg, crashes, timings, do_shrink=True)
     cells = {}
     for v, n in sorted(agg.cells.items(), key=lambda kv: -kv[1]):
         cells[v] = n
+    # clone_from cells: relation of destination and source set x equal / different slot index (x phase, summed out here)
+    cf = collections.Counter()
+    cf_phase = collections.Counter()
+    for v, n in agg.cfcells.items():
+        rel, eq, ph = (v.split("|") + ["-", "-"])[:3]
+        cf[f"{rel}|{eq}"] += n
+        cf_phase[f"{rel}|{eq}|{ph}"] += n
     directed = sum(n for v, n in agg.cells.items()
                    if v.startswith("stash-weak|mark") and "|set=B|target=w|first=1|stashed" in v)
     summary = {f"dynroots_{prop}": dict(
@@ -448,6 +461,7 @@ def analyse(prop, tier, seed, hexe, mexe, agg, crashes, timings, do_shrink=True)
         disagreeing_cases=agg.n_diff, harness_crashes=len(crashes), nontrivial_distinct=len(agg.distinct),
         stashes=agg.stash, slot_reuses=agg.reuse, collections_with_live_handles=agg.coll,
         coverage_opkind_setstate_phase=table,
+        clonefrom_cells=dict(sorted(cf.items())), clonefrom_cells_by_phase=dict(sorted(cf_phase.items())),
         stash_colour_cells=cells, black_set_adopts_white_weak_first_stash_of_marking=directed,
         timings_s=timings)}
     return dict(problems=problems, evaluations=n_cases, distinct_nontrivial=len(agg.distinct), rule=RULE, samples=samples,
